@@ -1016,6 +1016,11 @@ class Emit:
     def _mcall(self, e):
         recv, m, args = e[1], e[2], e[3]
         if (m in ERASED_METHODS and not args) or m in ("map_err", "with_context", "context"): return (self.ex(recv), False, False)
+        # a method of an extern type, selected by the NAME of the receiver variable (two extern types with a method of the same
+        # name and arity, e.g. `rolling.digest()` / `hasher.digest()`): a pure operation of `Ext`
+        if recv[0] == "path" and len(recv[1]) == 1 and f"{recv[1][0]}.{m}" in self.unit.get("recv_methods", {}):
+            self.cur_uses_ext = True
+            return ("(" + " ".join([f"ext.{self.unit['recv_methods'][recv[1][0] + '.' + m]}", self.atom(recv)] + [self.atom(x) for x in args]) + ")", False, False)
         # method of a type translated in this unit (non-mutating)
         for exact in (True, "ext", False):
             if exact == "ext":
@@ -1222,11 +1227,27 @@ class Emit:
     def stmt(self, s, ind):
         saved = self.pre; self.pre = []
         try:
+            taken = []
+            def untake(e):
+                # `std::mem::take(&mut x)` -> `x`, and `x := default` after the statement
+                if isinstance(e, tuple):
+                    if len(e) == 3 and e[0] == "call" and e[1][0] == "path" and e[1][1][-2:] == ["mem", "take"] and len(e[2]) == 1 \
+                       and e[2][0][0] == "path" and len(e[2][0][1]) == 1:
+                        taken.append(lname(e[2][0][1][0])); return e[2][0]
+                    return tuple(untake(x) for x in e)
+                if isinstance(e, list): return [untake(x) for x in e]
+                return e
+            if s[0] == "expr" and s[1][0] in ("mcall", "call", "assign"): s = untake(s)
             L = self._stmt(s, ind)
-            return [ind + x for x in self.pre] + L
+            return [ind + x for x in self.pre] + L + [ind + f"{x} := default" for x in taken]
         finally:
             self.pre = saved
     def _stmt(self, s, ind):
+        pr = self.pair_read(s)
+        if pr is not None:
+            raw, buf, target, decl = pr
+            self.qn += 1; q = f"__r{self.qn}"
+            return [ind + f"let {q} ← {raw}", ind + f"{buf} := {q}.2", ind + (f"{decl} {target} := {q}.1" if decl else f"{target} := {q}.1")]
         if s[0] == "let":
             _, p, mut, ty, init, els = s
             te = self.unit.get("typed_externs", [])
@@ -1291,8 +1312,21 @@ class Emit:
         if k == "mcall":
             recv, m, args = e[1], e[2], e[3]
             if m in self.unit.get("skip_method_stmts", []): return []
+            if m == "push" and len(args) == 1 and recv[0] == "mcall" and recv[2] == "or_default" and not recv[3] \
+               and recv[1][0] == "mcall" and recv[1][2] == "entry" and len(recv[1][3]) == 1 \
+               and recv[1][1][0] == "path" and len(recv[1][1][1]) == 1:
+                # map.entry(k).or_default().push(v)
+                x = lname(recv[1][1][1][0])
+                return [ind + f"{x} := Rs.entry_push {x} {self.atom(recv[1][3][0])} {self.atom(args[0])}"]
             if recv[0] == "path" and len(recv[1]) == 1:
                 x = lname(recv[1][0])
+                if m in self.unit.get("mut_ext_methods", {}):
+                    # a `&mut self` method of an extern type: the operation of `Ext` returns the new value
+                    self.cur_uses_ext = True
+                    return [ind + f"{x} := " + " ".join([f"ext.{self.unit['mut_ext_methods'][m]}", x] + [self.atom(a) for a in args])]
+                if m == "extend_from_slice" and len(args) == 1: return [ind + f"{x} := {x} ++ {self.atom(args[0])}"]
+                if m == "drain" and len(args) == 1 and args[0][0] == "range" and args[0][2] is not None and not args[0][3]:
+                    return [ind + f"{x} := Rs.drain_range {x} {self.atom(args[0][1])} {self.atom(args[0][2])}"]
                 if m == "push" and len(args) == 1: return [ind + f"{x} := {x} ++ [{self.ex(args[0])}]"]
                 if m == "push_str" and len(args) == 1: return [ind + f"{x} := {x} ++ {self.ex(args[0])}"]
                 if m == "clear" and not args: return [ind + f"{x} := Rs.clear {x}"]
@@ -1326,6 +1360,20 @@ class Emit:
             v = self.ex(e)
             return [ind + f"let _ ← {v[3:-1]}"]
         raise Unsupported(f"statement {k}")
+    def pair_read(self, s):
+        """`[let [mut]] n = h.m(&mut buf)?` where the world operation `m` (spec: returns_pair) answers (result, new buffer)"""
+        if s[0] == "let" and s[1][0] == "bind" and s[4] is not None: target, decl, init = lname(s[1][1]), ("let mut" if s[2] else "let"), s[4]
+        elif s[0] == "expr" and s[1][0] == "assign" and s[1][1] == "=" and s[1][2][0] == "path" and len(s[1][2][1]) == 1:
+            target, decl, init = lname(s[1][2][1][0]), None, s[1][3]
+        else: return None
+        if init[0] != "try" or init[1][0] != "mcall": return None
+        mc = init[1]; em = self.ext_methods.get(f"{mc[2]}/{len(mc[3])}", self.ext_methods.get(mc[2]))
+        if not em or not em.get("returns_pair"): return None
+        a = mc[3][em["assign_arg"]]
+        if a[0] != "path" or len(a[1]) != 1: raise Unsupported("out-parameter that is not a local variable")
+        self.cur_uses_ext = True
+        raw = " ".join([f"ext.{em['name']}", self.atom(mc[1])] + [self.atom(x) for x in mc[3]])
+        return raw, lname(a[1][0]), target, decl
     def branching_or_block(self, e, ind, mode):
         if e[0] == "block": return self.seq(e, ind, mode)
         return self.branching(e, ind, mode)
